@@ -288,6 +288,11 @@ Definition oversize (c : cfg) (t : req) : bool :=
   let cps := if r_cpr t =? 0 then 1 else r_cpr t in
   (cpn c <? cps) || (64 * gpn c <? r_gpr t) || (lfs_pn c <? r_lfs t) || (mem_pn c <? r_mem t).
 
+(* exactly `ranks` slots; at most ranks_per_node of them on one node *)
+Definition c02_ranks_bit (t : req) (sl : list slot) : bool := Z.of_nat (length sl) =? r_ranks t.
+Definition c02_rpn_bit (t : req) (sl : list slot) : bool :=
+  if r_rpn t =? 0 then true else forallb (fun s => count_node (s_node s) sl <=? r_rpn t) sl.
+
 (* a colocate tag seen before confines the grant to the nodes recorded for it *)
 Definition c02_colo_bit (tags : list (Z * list Z)) (t : req) (sl : list slot) : bool :=
   match r_colo t with
@@ -322,10 +327,9 @@ Fixpoint c02_events (c : cfg) (ns0 : list node) (rs : list req) (evs : list even
       | Some t =>
           if is_pre t then c02_events c ns0 rs r tags tgd acc
           else
-            let b_ranks := Z.of_nat (length sl) =? r_ranks t in
+            let b_ranks := c02_ranks_bit t sl in
             let b_shape := forallb (slot_shape_ok ns0 t) sl in
-            let b_rpn := if r_rpn t =? 0 then true
-                         else forallb (fun s => count_node (s_node s) sl <=? r_rpn t) sl in
+            let b_rpn := c02_rpn_bit t sl in
             let b_colo := c02_colo_bit tags t sl in
             let b_over := negb (oversize c t) in
             let b_excl := c02_excl_bit tags tgd (length ns0) t sl in
